@@ -961,15 +961,19 @@ func withCancellation(sc *Scn, r *rand.Rand) {
 	mr := runModelUncancelled(sc).Runs[0]
 	// the deadline variant needs the model's clock to be exact; it is, as long as
 	// only the scripted callbacks consume time ("at least w" leaves retry waits
-	// free to be longer), so it is used only when no retry wait is configured
-	noWaits := true
-	for _, n := range sc.Nodes {
-		if n.config().WaitMs > 0 {
-			noWaits = false
+	// free to be longer)
+	// ... or the deadline falls before the end of the first retry wait on the
+	// path: everything before that instant is scripted callback time, and an
+	// instant inside the first wait stays inside it however long the wait is
+	limit := mr.EndT
+	for i := 1; i < len(mr.Main); i++ {
+		if mr.Main[i].Kind == "exec_start" && mr.Main[i].A > 1 && mr.Main[i].T > mr.Main[i-1].T {
+			limit = mr.Main[i].T
+			break
 		}
 	}
-	if r.IntN(3) == 0 && mr.EndT > 0 && noWaits {
-		d := r.Int64N(mr.EndT / 1000)
+	if r.IntN(3) == 0 && limit > 1000 {
+		d := r.Int64N(limit / 1000)
 		if d%10000 == 0 {
 			d += 1 + r.Int64N(9999)
 		}
